@@ -159,6 +159,25 @@ def run(chk):
                 r3.note("%s is a script built-in: it is only reached through a call node, whose Function_Push_Pop has enabled the saves" % strip_targs(f["q"]))
             r3.ob(ident + (" happens inside a call node's scope" if script_builtin else " enables the conversion saves first"),
                   script_builtin or guard is not None, "%s:%d" % (f["file"], uses[0]["l"]), f["q"], why)
+    # references handed to the host through the API: a fresh conversion state, no saves, and a reference result
+    nref = 0
+    refbad = None
+    for f in fns:
+        if strip_targs(f["q"]) != "chaiscript::detail::Dispatch_Engine::boxed_cast" or f["tk"] != "inst":
+            continue
+        rt = prog.T(f, f.get("ret")) if f.get("ret") is not None else ""
+        if not rt.rstrip().endswith("&"):
+            continue
+        nref += 1
+        fresh = any(n.get("k") == "decl" and any(strip_targs(prog.T(f, v["t"]).replace("const ", "")) == "chaiscript::Type_Conversions_State" for v in n["vars"]) for n in walk(f["body"]))
+        guarded = any(n.get("k") == "decl" and any(enables_saves(prog, f, v) for v in n["vars"]) for n in walk(f["body"]))
+        if fresh and not guarded and refbad is None:
+            refbad = f
+    if nref:
+        r3.ob("chaiscript::detail::Dispatch_Engine::boxed_cast/a reference result handed to the host is not a reference into an unsaved conversion temporary", refbad is None,
+              refbad.where if refbad else "", refbad["q"] if refbad else "",
+              "boxed_cast<T &> (and eval<T &>) builds a fresh conversion state with saves disabled and returns the reference that chaiscript::boxed_cast produced: when a "
+              "type conversion was needed the converted object is destroyed before the caller can use the reference (%d reference-returning instantiations)" % nref)
     r3.require(3, "obligations")
 
     # ------------------------------------------------------------------ R11.4
